@@ -67,7 +67,7 @@ class CME:
     def P(self, dt):
         key = round(float(dt), 12)
         if key not in self._expm:
-            self._expm[key] = np.clip(scipy.linalg.expm(self.Q * dt), 0.0, 1.0)
+            self._expm[key] = transition_matrix(self.Q, dt)
         return self._expm[key]
 
     def marginals_and_joints(self, grid, t0=0.0):
@@ -116,3 +116,37 @@ class CME:
         found = scodes[order][pos] == codes
         out = np.where(found, order[pos], -1)
         return out
+
+
+def transition_matrix(Q, dt):
+    """exp(Q dt) of a generator matrix by uniformisation on a short step followed by repeated squaring.
+
+    Every term of the series and every product has non-negative entries, so nothing cancels and the result is a
+    stochastic matrix to rounding.  (scipy.linalg.expm was used before; scipy 1.18 returns a matrix whose rows sum to
+    0.987 for the 27-state, upper-triangular generator of  A -> Z -> 0  with equal rate constants - DESIGN section 12.)"""
+    n = Q.shape[0]
+    lam = float(np.max(-np.diag(Q)))
+    if lam <= 0 or dt <= 0:
+        return np.eye(n)
+    s = max(0, int(np.ceil(np.log2(lam * dt / 0.25))))
+    h = dt / (2 ** s)
+    U = np.eye(n) + Q / lam                   # uniformised jump chain: non-negative, rows sum to 1
+    a = lam * h                               # <= 0.25
+    w = np.exp(-a)
+    P = w * np.eye(n)
+    term = np.eye(n)
+    k = 0
+    while True:
+        k += 1
+        term = term @ U
+        w = w * a / k
+        P = P + w * term
+        if w < 1e-18 and k > a + 4:
+            break
+    for _ in range(s):
+        P = P @ P
+    rows = P.sum(axis=1)
+    if not (np.all(P >= 0) and np.max(np.abs(rows - 1.0)) < 1e-9):
+        raise ArithmeticError("transition matrix is not stochastic: row sums in [%r, %r]" % (rows.min(), rows.max()))
+    return P / rows[:, None]
+
